@@ -202,17 +202,19 @@ Record conn_st := mkConn { c_id : N; c_queue : list bytes; c_closed : bool; c_ma
    trunk ends (a cut trunk = a prefix of the peer's stream); m_tx: the bytes written so far *)
 Record mux_st := mkMux {
   m_rx : bytes; m_conns : list conn_st; m_err : option errc; m_closed : bool;
-  m_reader_done : bool; m_qlen : N; m_tx : bytes; m_tx_broken : bool }.
+  m_reader_done : bool; m_qlen : N; m_tx : bytes; m_tx_broken : bool;
+  m_blocked : bool }.   (* created WithBlockedRead and not unblocked yet: the reader is parked *)
 
-Definition set_rx v s := mkMux v (m_conns s) (m_err s) (m_closed s) (m_reader_done s) (m_qlen s) (m_tx s) (m_tx_broken s).
-Definition set_conns v s := mkMux (m_rx s) v (m_err s) (m_closed s) (m_reader_done s) (m_qlen s) (m_tx s) (m_tx_broken s).
-Definition set_err v s := mkMux (m_rx s) (m_conns s) v (m_closed s) (m_reader_done s) (m_qlen s) (m_tx s) (m_tx_broken s).
-Definition set_closed v s := mkMux (m_rx s) (m_conns s) (m_err s) v (m_reader_done s) (m_qlen s) (m_tx s) (m_tx_broken s).
-Definition set_reader_done v s := mkMux (m_rx s) (m_conns s) (m_err s) (m_closed s) v (m_qlen s) (m_tx s) (m_tx_broken s).
-Definition set_tx v b s := mkMux (m_rx s) (m_conns s) (m_err s) (m_closed s) (m_reader_done s) (m_qlen s) v b.
+Definition set_rx v s := mkMux v (m_conns s) (m_err s) (m_closed s) (m_reader_done s) (m_qlen s) (m_tx s) (m_tx_broken s) (m_blocked s).
+Definition set_conns v s := mkMux (m_rx s) v (m_err s) (m_closed s) (m_reader_done s) (m_qlen s) (m_tx s) (m_tx_broken s) (m_blocked s).
+Definition set_err v s := mkMux (m_rx s) (m_conns s) v (m_closed s) (m_reader_done s) (m_qlen s) (m_tx s) (m_tx_broken s) (m_blocked s).
+Definition set_closed v s := mkMux (m_rx s) (m_conns s) (m_err s) v (m_reader_done s) (m_qlen s) (m_tx s) (m_tx_broken s) (m_blocked s).
+Definition set_reader_done v s := mkMux (m_rx s) (m_conns s) (m_err s) (m_closed s) v (m_qlen s) (m_tx s) (m_tx_broken s) (m_blocked s).
+Definition set_tx v b s := mkMux (m_rx s) (m_conns s) (m_err s) (m_closed s) (m_reader_done s) (m_qlen s) v b (m_blocked s).
+Definition set_blocked v s := mkMux (m_rx s) (m_conns s) (m_err s) (m_closed s) (m_reader_done s) (m_qlen s) (m_tx s) (m_tx_broken s) v.
 
 Definition init_mux (rx : bytes) (qlen : N) (opened : list N) : mux_st :=
-  mkMux rx (map (fun id => mkConn id [] false true false 0) opened) None false false qlen [] false.
+  mkMux rx (map (fun id => mkConn id [] false true false 0) opened) None false false qlen [] false false.
 
 (* the capacity of every connection's incoming queue for a Mux made WithReadQueueLength(configured): the
    configured length if the source sizes the channel with the qlen field, else the default constant
@@ -248,7 +250,8 @@ Definition fail_reader (e : errc) (s : mux_st) : mux_st := set_reader_done true 
 
 (* one iteration of mux.reader's loop (trunk ends after m_rx) *)
 Definition reader_step (s : mux_st) : mux_st :=
-  if m_reader_done s then s
+  if m_blocked s then s          (* parked until Unblock *)
+  else if m_reader_done s then s
   else if m_closed s then set_reader_done true (latch EEOF s)
   else match parse_one (m_rx s) with
        | PFrame f rest =>
@@ -386,6 +389,27 @@ Definition write_step := write_step_pf payload_failure_fatal_after_header.
 Definition trunk_up_step (s : mux_st) : mux_st :=
   if m_closed s then s else set_tx (m_tx s) false s.
 
+(* mux.Unblock().  The reader goroutine of a Mux is started once, in the constructor (MuxConsts.reader_started_once,
+   read from mux.go on every run: there is exactly one `go <m>.reader()`, in newMux); a Mux created WithBlockedRead
+   has its reader parked until the first Unblock; every other Unblock — on a Mux that was never blocked, or a
+   repeated one — does nothing.  [once] is that switch.  Without it an Unblock on an unblocked Mux starts a SECOND
+   reader on the same trunk; the two split the byte stream between them.  The variant models one of the
+   interleavings: the second reader takes the next 8 bytes (a header), the first goes on behind them. *)
+Definition unblock_step (once : bool) (s : mux_st) : mux_st :=
+  if m_blocked s then set_blocked false s
+  else if once then s
+  else set_rx (skipn 8 (m_rx s)) s.
+
+(* The reader looks the connection up under the read lock, releases it and only then sends the frame into the
+   connection's queue; a conn.Close may come in between.  The model makes lookup and send one step: that is sound
+   only if a send into the queue of a connection that has been closed meanwhile cannot fail — i.e. if the queue's
+   channel is never closed (MuxConsts.readq_never_closed, read from mux.go on every run: no close(<x>.readC)).
+   [send_to closes_q c qlen]: what the send does to connection c as it is at the time of the send. *)
+Inductive send_res := SendOk | SendFull | SendPanic.
+Definition send_to (closes_q : bool) (c : conn_st) (qlen : N) : send_res :=
+  if closes_q && negb (c_mapped c) then SendPanic          (* send on a closed channel *)
+  else if lenN (c_queue c) <? qlen then SendOk else SendFull.
+
 (* SetDeadline / SetReadDeadline / SetWriteDeadline on a logical connection.  In the code they are stubs that
    return nil: the Mux, its connections and the shared trunk are untouched (MuxConsts.deadlines_are_stubs, read
    from mux.go on every run; [stubs] is that switch).  The variant that forwards the deadline to the shared trunk
@@ -414,6 +438,7 @@ Inductive event :=
 | EvOpen (id : N)
 | EvStaleClose (id : N)   (* Close on a stale handle of id, once more *)
 | EvDeadline (id : N) (k : dkind)   (* Set[Read|Write]Deadline on the connection, with a deadline that expires *)
+| EvUnblock                         (* mux.Unblock() *)
 | EvWrite (id : N) (buf : bytes) (cut : option N)
 | EvClose
 | EvConnClose (id : N)
@@ -429,6 +454,7 @@ Definition step_mp (mp : N) (s : mux_st) (e : event) : mux_st * result :=
   | EvOpen id => open_step open_closes_on_closed id s
   | EvStaleClose id => stale_close_step close_checks_identity id s
   | EvDeadline id k => deadline_step deadlines_are_stubs id k s
+  | EvUnblock => (unblock_step reader_started_once s, ROk)
   | EvWrite id buf cut => write_step mp id buf cut s
   | EvClose => (do_close s, ROk)
   | EvConnClose id => (conn_close_step id s, ROk)
@@ -449,6 +475,21 @@ Definition step := step_mp max_payload_size.
 Definition run := run_mp max_payload_size.
 
 (* the same machine with the switches read from the source given explicitly (for the refuted variants) *)
+(* … and the switch of Unblock *)
+Definition step_var5 (once : bool) (mp : N) (s : mux_st) (e : event) : mux_st * result :=
+  match e with
+  | EvUnblock => (unblock_step once s, ROk)
+  | _ => step_mp mp s e
+  end.
+Fixpoint run_var5 (once : bool) (mp : N) (s : mux_st) (evs : list event) : mux_st * list (event * result) :=
+  match evs with
+  | [] => (s, [])
+  | e :: r =>
+      let (s1, o) := step_var5 once mp s e in
+      let (s2, tr) := run_var5 once mp s1 r in
+      (s2, (e, o) :: tr)
+  end.
+
 Definition step_var4 (closes guarded pfatal stubs : bool) (mp : N) (s : mux_st) (e : event) : mux_st * result :=
   match e with
   | EvOpen id => open_step closes id s
